@@ -142,14 +142,18 @@ Definition exec_step (nr : nat) (s : store) (sp : step) : store * nat * nat :=
 (* ---- the machine: calls interleaved with writes by consumers that already hold a payload --- *)
 Inductive label :=
 | LCall                         (* the fan-out performs its next consumer call *)
-| LWrite (i : nat) (w : wr).    (* consumer i runs mutation program w on the payload it was given
+| LWrite (i : nat) (w : wr)     (* consumer i runs mutation program w on the payload it was given
                                    (synchronously inside its ConsumeX, or later from a goroutine) *)
+| LCancel.                      (* the caller's context ends (cancelled / deadline exceeded), at this point of the
+                                   schedule: before ConsumeX, inside some consumer's call, or afterwards.
+                                   ConsumeX never inspects ctx (it only passes it on), so nothing else changes. *)
 
 Inductive wres := WOk | WPanic | WSkip.   (* mutated | "invalid access to shared data" | no mutator reached / no payload yet *)
 
 Inductive ev :=
 | ECall (i : nat) (c : nat) (ro : bool) (seen : list Z)     (* consumer, cell, IsReadOnly and content at call time *)
-| EWrite (i : nat) (w : wr) (r : wres).
+| EWrite (i : nat) (w : wr) (r : wres)
+| ECancel.                                                  (* the context passed to ConsumeX is done from here on *)
 
 Record mstate := mkM { todo : list step; st : store; hs : list (nat * nat); elog : list ev (* newest first *) }.
 
@@ -182,6 +186,16 @@ Definition mstep (nr : nat) (m : mstate) (l : label) : mstate :=
           let '(s', r) := do_write (st m) c w in
           mkM (todo m) s' (hs m) (EWrite i w r :: elog m)
       end
+  | LCancel => mkM (todo m) (st m) (hs m) (ECancel :: elog m)
+  end.
+
+(* what a consumer finds in the ctx it is handed: the SAME context the caller passed, hence done iff the
+   caller's context ended earlier in the schedule (log is newest first) *)
+Fixpoint ctx_done (log : list ev) : bool :=
+  match log with
+  | [] => false
+  | ECancel :: _ => true
+  | _ :: r => ctx_done r
   end.
 
 Definition init (f : fan) (ro_in : bool) (c0 : list Z) : mstate :=
